@@ -106,7 +106,7 @@ func c07RunK(cs c07Case, n, k int) (sig, what string) {
 	var closed bool
 	var wire []*harness.Wire
 	var panicked string
-	s := vsched.Run(vsched.Config{}, func() {
+	s := vsched.Run(vsched.Config{Fast: true}, func() {
 		f := harness.NewFixture(false)
 		qs, rs := d.Stores(split)
 		for i, od := range dags {
